@@ -491,7 +491,7 @@ impl Prop for C11 {
         let home = crate::runner::verif_root().join(format!("target/scratch/c11-home-{}", std::process::id()));
         let _ = std::fs::create_dir_all(&home);
         let mut stats = (0, 0, 0);
-        let r = judge_stream(&delta, &home, case, &mut stats);
+        let r = if case["mode"].as_str() == Some("launched") { launched_probe(&delta, &home, case, 0) } else { judge_stream(&delta, &home, case, &mut stats) };
         let _ = std::fs::remove_dir_all(&home);
         match r {
             Ok(Some(Some((f, v)))) => Some(Verdict::Fail(f.with(v))),
@@ -794,11 +794,178 @@ fn binary_probes(sup: &mut Sup) {
             }
         }
     }
+    // delta as the *launcher* of the producer (`delta git diff`): the same streaming must hold when
+    // the command's output arrives through the pipe delta created for it
+    let (mut lp, mut lincon) = (0u64, 0u64);
+    for (i, x) in xs.iter().filter(|x| !x["pager_mode"].as_bool().unwrap_or(false)).take(12).enumerate() {
+        match launched_probe(&delta, &home, x, i) {
+            Ok(None) => {
+                lp += 1;
+                lincon += 1;
+            }
+            Ok(Some(None)) => lp += 1,
+            Ok(Some(Some((f, v)))) => {
+                lp += 1;
+                sup.fail(f, v);
+            }
+            Err(e) => {
+                sup.infra_errors.push(format!("launched-command probe: {}", e));
+                break;
+            }
+        }
+    }
+    sup.extra.insert("launched_command_probes".into(), json!({"streams": lp, "inconclusive": lincon}));
     let _ = std::fs::remove_dir_all(&home);
     if inconclusive > 0 {
         *sup.notes.entry("pipe_probes_inconclusive".to_string()).or_insert(0) += inconclusive;
     }
     sup.extra.insert("pipe_probes".into(), json!({"streams": probes, "inconclusive": inconclusive, "prefixes_judged": prefixes, "final_output_identical_to_in_process": same_final, "prefixes_with_listed_per_side_lag": per_side_seen, "streams_written_to_a_pager": pager_streams}));
+}
+
+/// is the main thread asleep in a read() call (on whatever descriptor)?
+/// every thread of `pid` and of its child processes is asleep (state S, inside a system call);
+/// whichever call it is: a delta that collects the command's output sleeps in poll(), not read()
+fn all_asleep(pid: u32) -> Option<bool> {
+    let mut pids = vec![pid];
+    let mut i = 0;
+    while i < pids.len() {
+        let p = pids[i];
+        i += 1;
+        for t in std::fs::read_dir(format!("/proc/{}/task", p)).ok()? {
+            let t = t.ok()?.path();
+            let stat = std::fs::read_to_string(t.join("stat")).ok()?;
+            let st = stat.rsplit(')').next()?.split_whitespace().next()?.to_string();
+            if st != "S" {
+                return Some(false);
+            }
+            let sc = std::fs::read_to_string(t.join("syscall")).unwrap_or_default();
+            if sc.trim().is_empty() || sc.starts_with("running") {
+                return Some(false);
+            }
+            if let Ok(ch) = std::fs::read_to_string(t.join("children")) {
+                pids.extend(ch.split_whitespace().filter_map(|c| c.parse::<u32>().ok()));
+            }
+        }
+    }
+    Some(pids.len() >= 2)
+}
+
+/// `delta <opts> git diff` with a stub git that copies a FIFO to its stdout: the probe writes the
+/// stream up to (and including) an unchanged hunk line, waits until delta sleeps in read() again,
+/// and requires every hunk line written so far to be in delta's output; then sends the rest.
+/// Ok(None) = inconclusive (quiescence not observed), Ok(Some(None)) = held.
+fn launched_probe(delta: &std::path::Path, home: &std::path::Path, x: &Value, no: usize) -> Result<Option<Option<(Failure, Value)>>, String> {
+    use std::io::Write;
+    use std::os::unix::io::AsRawFd;
+    use std::process::{Command, Stdio};
+    let args: Vec<String> = x["argv"].as_array().map(|a| a.iter().map(|s| s.as_str().unwrap_or("").to_string()).collect()).unwrap_or_default();
+    let lines: Vec<String> = x["lines"].as_array().map(|a| a.iter().map(|s| s.as_str().unwrap_or("").to_string()).collect()).unwrap_or_default();
+    let meta: Vec<(K, usize, Option<usize>)> = x["meta"].as_array().map(|a| a.iter().map(|m| (match m[0].as_u64().unwrap_or(0) { 0 => K::Header, 1 => K::HunkHeader, 2 => K::Ctx, 3 => K::Minus, 4 => K::Plus, _ => K::NoNewline }, m[1].as_u64().unwrap_or(0) as usize, m[2].as_u64().map(|v| v as usize))).collect()).unwrap_or_default();
+    if lines.is_empty() || meta.len() != lines.len() {
+        return Ok(Some(None));
+    }
+    // pause after the last unchanged hunk line of the first half
+    let cut = match (0..lines.len() / 2 + 1).rev().find(|i| meta[*i].0 == K::Ctx) {
+        Some(i) => i + 1,
+        None => return Ok(Some(None)),
+    };
+    let dir = home.join(format!("launched-{}", no));
+    let tools = dir.join("tools");
+    std::fs::create_dir_all(&tools).map_err(|e| e.to_string())?;
+    let stub = crate::runner::verif_root().join("target/stubtool");
+    let git = tools.join("git");
+    let _ = std::fs::remove_file(&git);
+    std::fs::hard_link(&stub, &git).or_else(|_| std::fs::copy(&stub, &git).map(|_| ())).map_err(|e| e.to_string())?;
+    let fifo = dir.join("out.fifo");
+    let _ = std::fs::remove_file(&fifo);
+    let cf = std::ffi::CString::new(fifo.to_string_lossy().as_bytes()).unwrap();
+    if unsafe { libc::mkfifo(cf.as_ptr(), 0o600) } != 0 {
+        return Err("mkfifo failed".to_string());
+    }
+    let script = dir.join("script.json");
+    std::fs::write(&script, serde_json::to_string(&json!({"by_name": {"git": {"stdout_fifo": fifo, "status": 0}}})).unwrap()).map_err(|e| e.to_string())?;
+    let mut cmd = Command::new(delta);
+    cmd.args(&args).arg("--paging=never").args(["git", "diff"]).env_clear().env("PATH", format!("{}:/usr/bin:/bin", tools.display())).env("HOME", home).env("XDG_CONFIG_HOME", home.join(".config")).env("GIT_CONFIG_NOSYSTEM", "1").env("TERM", "xterm-256color").env("STUBTOOL_SCRIPT", &script);
+    cmd.stdin(Stdio::null()).stdout(Stdio::piped()).stderr(Stdio::null());
+    let mut child = cmd.spawn().map_err(|e| e.to_string())?;
+    let pid = child.id();
+    let mut stdout = child.stdout.take().unwrap();
+    unsafe {
+        let fd = stdout.as_raw_fd();
+        let fl = libc::fcntl(fd, libc::F_GETFL);
+        libc::fcntl(fd, libc::F_SETFL, fl | libc::O_NONBLOCK);
+    }
+    // (opening the FIFO for writing blocks until the stub has opened it for reading)
+    let mut w = match std::fs::OpenOptions::new().write(true).open(&fifo) {
+        Ok(w) => w,
+        Err(e) => {
+            let _ = child.kill();
+            let _ = child.wait();
+            return Err(format!("cannot open the fifo: {}", e));
+        }
+    };
+    let part1: String = lines[..cut].iter().map(|l| format!("{}\n", l)).collect();
+    let _ = w.write_all(part1.as_bytes());
+    let _ = w.flush();
+    // quiescence: the FIFO is empty (the command has taken everything), delta and the command are
+    // both asleep in a system call, and the output has not grown, at four looks 40 ms apart
+    let mut out: Vec<u8> = Vec::new();
+    let t0 = Instant::now();
+    let mut quiet = false;
+    let mut last_len = usize::MAX;
+    let mut same = 0;
+    while t0.elapsed() < Duration::from_secs(6) {
+        drain(&mut stdout, &mut out);
+        let mut pending: libc::c_int = -1;
+        unsafe { libc::ioctl(w.as_raw_fd(), libc::FIONREAD, &mut pending) };
+        if pending == 0 && all_asleep(pid) == Some(true) && out.len() == last_len {
+            same += 1;
+            if same >= 3 {
+                quiet = true;
+                break;
+            }
+        } else {
+            same = 0;
+        }
+        last_len = out.len();
+        std::thread::sleep(Duration::from_millis(40));
+    }
+    let snapshot = out.clone();
+    let rest: String = lines[cut..].iter().map(|l| format!("{}\n", l)).collect();
+    let _ = w.write_all(rest.as_bytes());
+    drop(w);
+    let t1 = Instant::now();
+    loop {
+        let more = drain(&mut stdout, &mut out);
+        if let Ok(Some(_)) = child.try_wait() {
+            drain(&mut stdout, &mut out);
+            break;
+        }
+        if !more || t1.elapsed() > Duration::from_secs(10) {
+            let _ = child.kill();
+            let _ = child.wait();
+            break;
+        }
+        std::thread::sleep(Duration::from_millis(5));
+    }
+    let _ = std::fs::remove_dir_all(&dir);
+    if !quiet {
+        return Ok(None);
+    }
+    let (mut present, mut paths) = (BTreeSet::new(), BTreeSet::new());
+    tokens_in(&term::visible_text(&snapshot), &mut present, &mut paths);
+    let missing: Vec<usize> = meta[..cut].iter().filter_map(|m| m.2).filter(|id| !present.contains(id)).collect();
+    let case = json!({"argv": args, "launched": ["git", "diff"], "lines_sent_before_the_pause": cut, "lines": lines, "meta": x["meta"], "mode": "launched"});
+    if !missing.is_empty() {
+        return Ok(Some(Some((
+            Failure::new("C11:launched:output-held-back", format!("`delta ... git diff`: the command had written {} lines (the last one an unchanged hunk line) and paused; delta and the command were both asleep but {} hunk lines (first: sentinel Q{}Z) had not been written", cut, missing.len(), missing[0])),
+            case,
+        ))));
+    }
+    if !out.starts_with(&snapshot) {
+        return Ok(Some(Some((Failure::new("C11:launched:output-revised", "what was written while the command paused is not a prefix of the final output".to_string()), case))));
+    }
+    Ok(Some(None))
 }
 
 pub fn debug_probe(x: &Value) {
